@@ -138,6 +138,19 @@ P.fn(FT + 'TeX.readInteger', name='TeX.readInteger', params=dict(self='TeX', opt
      locals={'num': 'Any?'},
      loops={0: Loop(inv=INSIDE), 1: Loop(inv=INSIDE), 2: Loop(inv=INSIDE), 3: Loop(inv=INSIDE)})
 
+# ---- glue scanners: the early return for a value taken from another parameter re-enables as well
+P.fn('TeX.readStretch', params=dict(self='TeX'), returns='Any?', ensures=BAL + ['0 <= self.pos', 'self.pos <= len(XS())'],
+     modifies=MODPC + [Mod('pos', 'r is self')], allocates=True, trusted=True, notes='readKeyword + readDimen (proved above)')
+CALLS_G = dict(CALLS)
+CALLS_G.update({'self.readDimen': 'TeX.readDimen/c', 'self.readMuDimen': 'TeX.readMuDimen/c', 'self.readStretch': 'TeX.readStretch',
+                'self.readShrink': 'TeX.readStretch', 'self.readMuStretch': 'TeX.readStretch', 'self.readMuShrink': 'TeX.readStretch',
+                'glue': 'opaque_fn3', 'muglue': 'opaque_fn3', 'mudimen': 'opaque_fn'})
+stub('opaque_fn3', dict(a='opaque', b='opaque=0', c='opaque=0'), allocates=True)
+for nm in ('readGlue', 'readMuGlue'):
+    P.fn(FT + 'TeX.%s' % nm, name='TeX.%s' % nm, params=dict(self='TeX'), returns='Any',
+         requires=REQ, ensures=BAL, modifies=MODPC + [Mod('pos', 'r is self')], allocates=True, skip_frame=True, calls=CALLS_G,
+         loops={0: Loop(inv=INSIDE)})
+
 # ---- readArgumentAndSource: every normal return path re-enables what it disabled
 P.fields.update({})
 for nm in ('Any',):
@@ -151,7 +164,7 @@ P.always_attrs = ('charsubs', 'nodeType')
 BALP = BAL + ['0 <= self.pos', 'self.pos <= len(XS())']
 for nm in ('readDimen', 'readMuDimen', 'readGlue', 'readMuGlue', 'readNumber'):
     P.fn('TeX.%s/c' % nm, params=dict(self='TeX'), returns='Any', ensures=BALP, modifies=MODPC + [Mod('pos', 'r is self')], allocates=True,
-         trusted=True, notes='balanced scanner (readDimen / readInteger proved above; readGlue / readMuGlue / readMuDimen by the same pattern)')
+         trusted=True, notes='balanced scanner (readDimen / readInteger / readGlue / readMuGlue proved; readMuDimen and readNumber only delegate)')
 P.fn('TeX.readToken', params=dict(self='TeX', expanded='bool=False', parentNode='Any?=None'), returns='tuple[Any?,str]', raises={'Exception': 'True'},
      ensures=BALP, modifies=[Mod('pos', 'r is self')], allocates=True, trusted=True, notes='readToken contains no enable/disable call')
 P.fn('TeX.readCharacter', params=dict(self='TeX', char='str'), returns='tuple[Any?,str]', raises={'Exception': 'True'},
@@ -184,3 +197,56 @@ P.fn(FT + 'TeX.readArgumentAndSource', name='TeX.readArgumentAndSource',
             3: Loop(inv=INSIDE, modifies=MODPC + [Mod('pos', 'r is self'), Mod('list:Any', 'r is toks')]),
             4: Loop(index='i4', seq='its4', inv=INSIDE, modifies=[Mod('dict:str,int', 'r is priorcodes')]),
             5: Loop(index='i5', seq='its5', inv=INSIDE)})
+
+# ---------------------------------------------------------------- readGrouping: which tokens an optional [ ... ] argument takes
+# TeX's rule, stated independently of the loop: scanning from position k with `level` open brackets and brace depth bl, the group
+# is closed by the first closing delimiter met at brace depth <= 0 that brings the bracket level to zero; brace groups are opaque.
+P.const('Token.CC_ESCAPE', 0)
+P.const('Token.CC_EGROUP', 2)
+
+
+@P.spec(heap=True, fuel=1)
+def CLOSE(k: 'int', level: 'int', bl: 'int', o: 'str', c: 'str') -> 'int':
+    if k >= len(XS()) or k < 0:
+        return len(XS())
+    if XS()[k].catcode == 1:
+        return CLOSE(k + 1, level, bl + 1, o, c)
+    if XS()[k].catcode == 2:
+        return CLOSE(k + 1, level, bl - 1, o, c)
+    if bl > 0:
+        return CLOSE(k + 1, level, bl, o, c)
+    if XS()[k].catcode != 0 and XS()[k].text == o:
+        return CLOSE(k + 1, level + 1, bl, o, c)
+    if XS()[k].catcode != 0 and XS()[k].text == c:
+        return k if level == 1 else CLOSE(k + 1, level - 1, bl, o, c)
+    return CLOSE(k + 1, level, bl, o, c)
+
+
+P.fn('Other', params=dict(ch='str'), returns='Any', trusted=True, allocates=True, modifies=[],
+     ensures=['fresh(result)', 'str(result) == ch', 'result.text == ch', 'result.catcode == 12', 'result.nodeType != 1'],
+     notes='Tokenizer.Other(ch): a character token of category 12')
+P.fn('TeX.source/l', params=dict(self='TeX', tokens='opaque'), returns='str', trusted=True, modifies=[])
+START = 'old(self.pos) + 1'
+CL = 'CLOSE(%s, 1, 0, chars[0:1], chars[1:2])' % START
+P.fn(FT + 'TeX.readGrouping', name='TeX.readGrouping/spec', params=dict(self='TeX', chars='str', expanded='bool=False', parentNode='Any?=None'),
+     returns='tuple[list[Any]?,str]',
+     requires=['len(chars) == 2', 'not expanded', '0 <= self.pos', 'self.pos <= len(XS())',
+               'all(not isnone(XS()[k]) and str(XS()[k]) == XS()[k].text for k in range(len(XS())))'],
+     ensures=[
+         # no opening delimiter next: nothing is consumed and the argument is absent
+         'implies(old(self.pos) >= len(XS()) or not (XS()[old(self.pos)].catcode != 0 and XS()[old(self.pos)].text == chars[0:1]), '
+         'isnone(result[0]) and self.pos == old(self.pos))',
+         # otherwise: exactly the tokens up to the matching closing delimiter, which is consumed too
+         'implies(old(self.pos) < len(XS()) and XS()[old(self.pos)].catcode != 0 and XS()[old(self.pos)].text == chars[0:1], '
+         'not isnone(result[0]) and len(result[0]) == %s - (%s) and self.pos == (%s + 1 if %s < len(XS()) else len(XS())) and '
+         'all(result[0][j] is XS()[%s + j] for j in range(len(result[0]))))' % (CL, START, CL, CL, START)],
+     modifies=[Mod('pos', 'r is self')], allocates=True,
+     calls={'self.itertokens': 'TeX.itertokens', 'self.pushToken': 'TeX.pushToken', 'Other': 'Other', 'self.source': 'TeX.source/l'},
+     locals={'[]': 'list[Any]', 'level': 'int', 'bracelevel': 'int'},
+     loops={0: Loop(inv=['self.pos == old(self.pos)'], modifies=[Mod('pos', 'r is self')]),
+            1: Loop(inv=['%s <= self.pos' % START, 'self.pos <= len(XS())', 'level >= 1',
+                         'str(begin) == chars[0:1]', 'str(end) == chars[1:2]', 'fresh(begin)', 'fresh(end)',
+                         'CLOSE(self.pos, level, bracelevel, chars[0:1], chars[1:2]) == %s' % CL,
+                         'len(toks) == self.pos - (%s)' % START, 'fresh(toks)',
+                         'all(toks[j] is XS()[%s + j] for j in range(len(toks)))' % START],
+                    modifies=[Mod('pos', 'r is self'), Mod('list:Any', 'r is toks or r is source')])})
